@@ -1,6 +1,6 @@
 (* Properties_C03.v — C03: each epoch exactly once, in DataLoader order.
    Model: SdlModel.v (the multi-process iterator under an explicit arrival SCHEDULE); proofs: SdlMapProofs.v. *)
-From PD Require Import Base SdlModel SdlObs SdlMapProofs SdlIterWorker SdlIterScope SdlIterSmall.
+From PD Require Import Base SdlModel SdlObs SdlMapProofs SdlIterWorker SdlIterScope SdlIterSmall SdlIterProofs.
 Open Scope list_scope. Open Scope nat_scope.
 
 (* map-style datasets, PROVED for every configuration (any num_workers > 0, prefetch_factor > 0, any batch sampler output,
@@ -25,6 +25,16 @@ Print Assumptions C03_map_rest_exact.
 Definition C03_iter_statement : Prop :=
   forall c, c_kind c = KIter -> 0 < c_W c -> 0 < c_P c -> length (c_shards c) = c_W c -> c_bad c = [] ->
   forall sched, outcomes c (S (length (reference c))) (sdl_fresh c) sched = map OBatch (reference c) ++ [OStop].
+
+(* iterable datasets, MAIN-process side, PROVED for every configuration with snapshot_every_n_steps = 0 (any num_workers > 0,
+   prefetch_factor > 0, any shards incl. empty / uneven ones, any batch_size incl. None, drop_last, rewind habit) and EVERY
+   arrival schedule: one epoch yields exactly the column-major interleave of the workers' batch lists, then StopIteration;
+   no assertion fires, the main process never waits for a result that cannot come, the model's fuel is never exhausted
+   (SdlIterProofs.v: slots of the round-robin walk, retirement on arrival, no starvation of the shrinking window) *)
+Theorem C03_iter_epoch_exact_no_snapshots : forall c, c_kind c = KIter -> 0 < c_W c -> 0 < c_P c -> c_I c = 0 ->
+  forall sched, outcomes c (S (length (reference c))) (sdl_fresh c) sched = map OBatch (reference c) ++ [OStop].
+Proof. exact iter_epoch_exact_I0. Qed.
+Print Assumptions C03_iter_epoch_exact_no_snapshots.
 
 (* PROVED building block of the iterable statement — the worker side, for every batch size (incl. batch_size=None), drop_last,
    rewind habit and every number of tasks: the answers of a fresh worker to its successive tasks are exactly the batches of
